@@ -1,10 +1,217 @@
-"""Loops over symbolic ranges / sequences: inductive invariants from the sidecar (see exec_for_symbolic)."""
-from .values import Unsupported
+"""Loops over sequences / ranges of symbolic length: inductive invariants from the sidecar.
+
+spec["loops"][ordinal] = dict(invariant=[expr, ...])   (ordinal = position of the loop inside the function)
+Invariant expressions range over the function's locals plus
+    k            number of completed iterations            _iter        the iterated sequence
+    _entry_<v>   value of local <v> at loop entry
+Each variable assigned in the body is modelled as an uninterpreted function of k. Three kinds of VC are generated:
+  .../loop<n>/inv[j]/init      inv(0) in the entry state
+  .../loop<n>/inv[j]/preserve  inv(k) and one execution of the real body  =>  inv(k+1)       (arbitrary 0 <= k < n)
+and after the loop  forall j in [0, n]: inv(j)  is assumed (justified by induction), state := state(n).
+`yield` inside such a loop makes the generator's result a symbolic sequence whose i-th element is the value yielded
+by the real body executed in state(i).
+"""
+
+from __future__ import annotations
+
+import ast
+
+import z3
+
+from .interp import Frame, _Break, _Continue
+
+
+class AccList(list):
+    """A list local that the loop body only appends to: collects the values appended during one iteration."""
+
+from .values import PathEnd, Sym, SymSeq, Unsupported, kind_of, mk, to_int_z, v_add, v_truth, z_of
+
+_ZS = {"int": z3.IntSort, "real": z3.RealSort, "bool": z3.BoolSort}
+
+
+def _assigned_names(body):
+    names = []
+    for st in body:
+        for n in ast.walk(st):
+            if isinstance(n, ast.Name) and isinstance(n.ctx, ast.Store) and n.id not in names:
+                names.append(n.id)
+            elif isinstance(n, ast.AugAssign) and isinstance(n.target, ast.Name) and n.target.id not in names:
+                names.append(n.target.id)
+    return names
+
+
+def _target_names(t):
+    return [n.id for n in ast.walk(t) if isinstance(n, ast.Name)]
+
+
+def _has_yield(body):
+    return any(isinstance(n, (ast.Yield, ast.YieldFrom)) for st in body for n in ast.walk(st))
+
+
+def _state_fn(ctx, name, sample):
+    k = kind_of(sample)
+    if isinstance(sample, (tuple, list)):
+        fns = [_state_fn(ctx, f"{name}.{i}", x) for i, x in enumerate(sample)]
+        typ = type(sample)
+        return lambda j: typ(f(j) for f in fns)
+    if k not in _ZS:
+        raise Unsupported(f"loop-carried variable {name} of kind {k}")
+    f = z3.Function(ctx.fresh_name(f"{name}@"), z3.IntSort(), _ZS[k]())
+    return lambda j: Sym(f(to_int_z(j)), k)
+
+
+def _eval_in(I, expr, frame, extra):
+    node = ast.parse(expr.strip(), mode="eval").body
+    from .contracts import SPEC_HELPERS
+
+    f2 = Frame(frame.module, frame.func, frame, frame.spec)
+    f2.vars.update(SPEC_HELPERS)
+    f2.vars.update(extra)
+    old = I.ctx.implicit_on
+    I.ctx.implicit_on = False
+    try:
+        return I.ctx.merged(lambda: I.eval(node, f2))
+    finally:
+        I.ctx.implicit_on = old
 
 
 def exec_for_symbolic(I, st, frame, seq, ordinal):
-    raise Unsupported("for loop over symbolic sequence (invariant support not loaded)")
+    spec = ((frame.spec or {}).get("loops") or {}).get(ordinal)
+    if spec is None:
+        raise Unsupported(f"for loop #{ordinal} over a sequence of symbolic length needs an invariant in the sidecar")
+    if st.orelse:
+        raise Unsupported("for/else over symbolic sequence")
+    ctx = I.ctx
+    where = ctx.where[-1]
+    n = seq.length
+    tnames = _target_names(st.target)
+    modified = [v for v in _assigned_names(st.body) if v not in tnames]
+    carried = [v for v in modified if frame.lookup(v)[0]]  # defined before the loop -> loop carried
+    # list locals that the body appends to (x.append(e)) are accumulators: result = entry + one element per iteration
+    accs = []
+    for stn in st.body:
+        for nd in ast.walk(stn):
+            if (isinstance(nd, ast.Call) and isinstance(nd.func, ast.Attribute) and nd.func.attr == "append"
+                    and isinstance(nd.func.value, ast.Name)):
+                nm = nd.func.value.id
+                found, val = frame.lookup(nm)
+                if found and isinstance(val, (list, SymSeq)) and nm not in accs:
+                    accs.append(nm)
+    if any(a in carried for a in accs):
+        raise Unsupported("accumulator list is also re-assigned in the loop body")
+    acc_entry = {a: frame.lookup(a)[1] for a in accs}
+    entry = {f"_entry_{v}": frame.lookup(v)[1] for v in carried}
+    invs = list(spec.get("invariant", []))
+    base_extra = dict(entry)
+    base_extra["_iter"] = seq
+    # ---- init
+    for j, inv in enumerate(invs):
+        g = _eval_in(I, inv, frame, {**base_extra, "k": 0})
+        ctx.oblige(f"{where}/loop{ordinal}/inv[{j}]/init", g, {"loop": True})
+    fns = {v: _state_fn(ctx, v, frame.lookup(v)[1]) for v in carried}
+    alt = ctx.nondet(2, f"loop{ordinal}")
+    if alt == 0:
+        # ---- preservation at an arbitrary iteration
+        k = ctx.fresh("k", "int")
+        ctx.assume(mk(z3.And(k.z >= 0, k.z < to_int_z(n))))
+        for v in carried:
+            frame.vars[v] = fns[v](k)
+        for inv in invs:
+            ctx.assume(_eval_in(I, inv, frame, {**base_extra, "k": k}))
+        I.assign(st.target, seq.get(k), frame)
+        for a in accs:
+            frame.vars[a] = AccList()
+        saved_y = frame.yields
+        if saved_y is not None:
+            frame.yields = []
+        try:
+            try:
+                I.exec_block(st.body, frame)
+            except _Continue:
+                pass
+            except _Break:
+                raise Unsupported("break inside a loop over a symbolic sequence")
+        finally:
+            if saved_y is not None:
+                frame.yields = saved_y
+        for j, inv in enumerate(invs):
+            g = _eval_in(I, inv, frame, {**base_extra, "k": v_add(k, 1)})
+            ctx.oblige(f"{where}/loop{ordinal}/inv[{j}]/preserve", g, {"loop": True})
+        raise PathEnd()
+    # ---- exit: assume the invariant at every iteration count (induction), continue in state(n)
+    entry_vars = dict(frame.vars)
+    jb = ctx.push_bound("j")
+    try:
+        zs = []
+        for inv in invs:
+            f2 = Frame(frame.module, frame.func, frame, frame.spec)
+            for v in carried:
+                f2.vars[v] = fns[v](jb)
+            zs.append(z_of(v_truth(_eval_in(I, inv, f2, {**base_extra, "k": jb}))))
+    finally:
+        facts = ctx.pop_bound()
+    if zs:
+        ctx.assume(mk(z3.ForAll([jb.z], z3.Implies(z3.And(jb.z >= 0, jb.z <= to_int_z(n), *facts), z3.And(*zs)))))
+    body, target = st.body, st.target
+    for a in accs:
+        def agetter(i, _a=a):
+            def thunk():
+                f2 = Frame(frame.module, frame.func, None, frame.spec)
+                f2.vars.update(entry_vars)
+                for v in carried:
+                    f2.vars[v] = fns[v](i)
+                for b in accs:
+                    f2.vars[b] = AccList()
+                f2.yields = [] if frame.yields is not None else None
+                I.assign(target, seq.get(i), f2)
+                try:
+                    I.exec_block(body, f2)
+                except _Continue:
+                    pass
+                except _Break:
+                    raise Unsupported("break inside a loop over a symbolic sequence")
+                if len(f2.vars[_a]) != 1:
+                    raise Unsupported("loop body must append exactly once per iteration to an accumulator list")
+                return f2.vars[_a][0]
+
+            return ctx.merged(thunk)
+
+        from .values import seq_of as _seq_of
+
+        ent = acc_entry[a]
+        tail = SymSeq(n, agetter, f"acc:{a}")
+        res = tail if (isinstance(ent, list) and not ent) else I.seq_concat(_seq_of(ent), tail)
+        res.pytype = "list"
+        frame.vars[a] = res
+    if frame.yields is not None and _has_yield(st.body):
+
+        def getter(i):
+            def thunk():
+                f2 = Frame(frame.module, frame.func, None, frame.spec)
+                f2.vars.update(entry_vars)
+                for v in carried:
+                    f2.vars[v] = fns[v](i)
+                f2.yields = []
+                I.assign(target, seq.get(i), f2)
+                try:
+                    I.exec_block(body, f2)
+                except _Continue:
+                    pass
+                except _Break:
+                    raise Unsupported("break inside a loop over a symbolic sequence")
+                if len(f2.yields) != 1:
+                    raise Unsupported("loop body must yield exactly once per iteration")
+                return f2.yields[0]
+
+            return ctx.merged(thunk)
+
+        frame.yields.append(SymSeq(n, getter, "yields"))
+    for v in carried:
+        frame.vars[v] = fns[v](n)
+    for v in modified:
+        if v not in carried:
+            frame.vars.pop(v, None)
 
 
 def exec_while_symbolic(I, st, frame, ordinal):
-    raise Unsupported("while loop with symbolic condition (invariant support not loaded)")
+    raise Unsupported("while loop with a symbolic condition (no invariant support)")
